@@ -457,10 +457,17 @@ theorem pushStmt_spec {opW opK : BinOp} {ninit : E} {worse : α → α → Bool}
 
 /-! ### one iteration of the outer loop -/
 
+/-- the argument `begin`: a time stamp or - `since_timed_operation` calls `historically_timed_operation(out2, 0, begin)` -
+    the integer literal `0` -/
+def BegOK (x : DV α) (a : Rat) : Prop := x = .tm (.fin a) ∨ (x = .int 0 ∧ a = 0)
+
+theorem BegOK.tm (a : Rat) : BegOK (.tm (.fin a) : DV α) a := .inl rfl
+theorem BegOK.int0 : BegOK (.int 0 : DV α) 0 := .inr ⟨rfl, rfl⟩
+
 /-- the locals the loops do not touch -/
 structure Inv (env : Env α) (s : ASig α) (a b : Rat) : Prop where
   hin : env.lookup "input_list" = some (encSig s)
-  hbeg : env.lookup "begin" = some (.tm (.fin a))
+  hbeg : ∃ xb, env.lookup "begin" = some xb ∧ BegOK xb a
   hend : env.lookup "end" = some (.tm (.fin b))
   hlen : env.lookup "len" = none
   hint : env.lookup "intersects" = none
@@ -469,7 +476,9 @@ structure Inv (env : Env α) (s : ASig α) (a b : Rat) : Prop where
 theorem Inv.frame {env env' : Env α} {s : ASig α} {a b : Rat} (h : Inv env s a b)
     (hF : Frame ["out", "a", "b", "i"] env env') : Inv env' s a b where
   hin := by rw [hF _ (by simp)]; exact h.hin
-  hbeg := by rw [hF _ (by simp)]; exact h.hbeg
+  hbeg := by
+    obtain ⟨xb, h1, h2⟩ := h.hbeg
+    exact ⟨xb, by rw [hF _ (by simp)]; exact h1, h2⟩
   hend := by rw [hF _ (by simp)]; exact h.hend
   hlen := by rw [hF _ (by simp)]; exact h.hlen
   hint := by rw [hF _ (by simp)]; exact h.hint
@@ -478,7 +487,9 @@ theorem Inv.frame {env env' : Env α} {s : ASig α} {a b : Rat} (h : Inv env s a
 theorem Inv.frame_dom {env env' : Env α} {s : ASig α} {a b : Rat} (h : Inv env s a b)
     (hF : Frame ["domain_end"] env env') : Inv env' s a b where
   hin := by rw [hF _ (by simp)]; exact h.hin
-  hbeg := by rw [hF _ (by simp)]; exact h.hbeg
+  hbeg := by
+    obtain ⟨xb, h1, h2⟩ := h.hbeg
+    exact ⟨xb, by rw [hF _ (by simp)]; exact h1, h2⟩
   hend := by rw [hF _ (by simp)]; exact h.hend
   hlen := by rw [hF _ (by simp)]; exact h.hlen
   hint := by rw [hF _ (by simp)]; exact h.hint
@@ -517,8 +528,20 @@ theorem initStmt_spec {opW opK : BinOp} {ninit : E} {worse : α → α → Bool}
     ∃ env', exec call fuel (initStmt ninit) env = .ok (env', none) ∧
       env'.lookup "out" = some (.list (pyStk (withInit neutral a s j stk))) ∧ Frame ["out"] env env' := by
   have gi := getLoc_of_lookup hi
-  have gbeg := getLoc_of_lookup hI.hbeg
+  obtain ⟨xb, hbeg, hxb⟩ := hI.hbeg
+  have gbeg := getLoc_of_lookup hbeg
   have gin := getLoc_of_lookup hI.hin
+  have hgt : evalBin .gt xb (.int 0 : DV α) = .ok (.bool (decide (0 < a))) := by
+    rcases hxb with rfl | ⟨rfl, rfl⟩
+    · simp [evalBin, isCmp, cmpDV, isTimeLike, toTm, cmpTm, Tm.lt]
+    · simp [evalBin, isCmp, cmpDV, cmpInt]
+  have hadd : ∀ t : Tm, evalBin .add (.tm t : DV α) xb = .ok (.tm (t.add a)) := by
+    intro t
+    rcases hxb with rfl | ⟨rfl, rfl⟩
+    · exact addTm t a
+    · simp [evalBin, isCmp, arith, isTimeLike, toTm]
+  have heqi : ∀ n m : Int, evalBin .eq (.int n : DV α) (.int m) = .ok (.bool (decide (n = m))) := by
+    intro n m; simp [evalBin, isCmp, cmpDV, cmpInt]
   cases j with
   | succ j =>
       have hne : ¬ ((j : Int) + 1 + 1 = 1) := by omega
@@ -535,14 +558,14 @@ theorem initStmt_spec {opW opK : BinOp} {ninit : E} {worse : α → α → Bool}
         | cons q rest => exact ⟨q, rest, rfl⟩
       have hcond : evalE call env (.and_ (.bin .eq (.loc "i") (.int 1)) (.bin .gt (.loc "begin") (.int 0)))
           = .ok (.bool (decide (0 < a))) := by
-        simp [evalE, gi, gbeg, evalBin, isCmp, cmpDV, cmpInt, truthy, isTimeLike, toTm, cmpTm, Tm.lt]
+        simp [evalE, gi, gbeg, heqi, hgt, truthy]
       unfold initStmt
       rw [exec_ite hcond rfl]
       by_cases ha : 0 < a
       · obtain ⟨d, hd1, hd2⟩ := hp.hN call env
         simp only [ha, decide_true, if_true]
         rw [exec_appendLoc (v := .seg Tm.zero (t0.add a) neutral)
-          (by simp [evalE, gin, gbeg, encSig, encSmp, evalIdx, pyIndex, addTm, hd1, mkSeg, toTm, hd2, Tm.zero]) hout]
+          (by simp [evalE, gin, gbeg, encSig, encSmp, evalIdx, pyIndex, hadd, hd1, mkSeg, toTm, hd2, Tm.zero]) hout]
         exact ⟨_, rfl, by simp [withInit, ha, pyStk_cons, encSeg], Frame.set (Frame.refl _ _) _ _ (by simp)⟩
       · simp only [ha, decide_false, Bool.false_eq_true, if_false]
         exact ⟨env, by simp [exec], by simpa [withInit, ha] using hout, Frame.refl _ _⟩
@@ -552,41 +575,44 @@ theorem bStmt_ok {call : Call α} (hc : CallOK call) (fuel : Nat) {env : Env α}
     (hi : env.lookup "i" = some (.int ((j : Int) + 1))) :
     exec call fuel bStmt env = .ok (setLoc "b" (encSeg (segAt a b s j p)) env, none) := by
   have gi := getLoc_of_lookup hi
-  have gbeg := getLoc_of_lookup hI.hbeg
+  obtain ⟨xb, hbeg, hxb⟩ := hI.hbeg
+  have gbeg := getLoc_of_lookup hbeg
   have gend := getLoc_of_lookup hI.hend
   have gin := getLoc_of_lookup hI.hin
   have rl := resolve_of_lookup hI.hlen
-  have hjl : j < s.length := by
-    rcases Nat.lt_or_ge j s.length with h' | h'
-    · exact h'
-    · rw [List.getElem?_eq_none h'] at hj; cases hj
-  cases hq : s[j + 1]? with
-  | none =>
-      have hge : ¬ ((j : Int) + 1 < (s.length : Int)) := by
-        have := List.getElem?_eq_none_iff.mp hq; omega
-      have hcond : evalE call env (.bin .lt (.loc "i") (.call1 "len" (.loc "input_list"))) = .ok (.bool false) := by
-        simp [evalE, gi, gin, rl, encSig, hc.len, evalBin, isCmp, cmpDV, cmpInt, hge]
-      unfold bStmt
-      rw [exec_ite hcond rfl]
-      simp only [Bool.false_eq_true, if_false]
-      apply exec_setLoc
-      simp [evalE, gi, gin, gbeg, evalBin, isCmp, arith, encSig, evalIdx_list_nat', hj, hq, encSmp, mkSeg, toTm, toVal,
-        isTimeLike, segAt, encSeg]
-  | some q =>
-      have hlt : ((j : Int) + 1 < (s.length : Int)) := by
-        have : j + 1 < s.length := by
-          rcases Nat.lt_or_ge (j + 1) s.length with h' | h'
-          · exact h'
-          · rw [List.getElem?_eq_none h'] at hq; cases hq
-        omega
-      have hcond : evalE call env (.bin .lt (.loc "i") (.call1 "len" (.loc "input_list"))) = .ok (.bool true) := by
-        simp [evalE, gi, gin, rl, encSig, hc.len, evalBin, isCmp, cmpDV, cmpInt, hlt]
-      unfold bStmt
-      rw [exec_ite hcond rfl]
-      simp only [if_true]
-      apply exec_setLoc
-      simp [evalE, gi, gin, gbeg, gend, evalBin, isCmp, arith, encSig, evalIdx_list_nat', evalIdx_list_succ, hj, hq, encSmp,
-        mkSeg, toTm, toVal, isTimeLike, segAt, encSeg]
+  rcases hxb with rfl | ⟨rfl, rfl⟩
+  all_goals (
+      have hjl : j < s.length := by
+        rcases Nat.lt_or_ge j s.length with h' | h'
+        · exact h'
+        · rw [List.getElem?_eq_none h'] at hj; cases hj
+      cases hq : s[j + 1]? with
+      | none =>
+          have hge : ¬ ((j : Int) + 1 < (s.length : Int)) := by
+            have := List.getElem?_eq_none_iff.mp hq; omega
+          have hcond : evalE call env (.bin .lt (.loc "i") (.call1 "len" (.loc "input_list"))) = .ok (.bool false) := by
+            simp [evalE, gi, gin, rl, encSig, hc.len, evalBin, isCmp, cmpDV, cmpInt, hge]
+          unfold bStmt
+          rw [exec_ite hcond rfl]
+          simp only [Bool.false_eq_true, if_false]
+          apply exec_setLoc
+          simp [evalE, gi, gin, gbeg, evalBin, isCmp, arith, encSig, evalIdx_list_nat', hj, hq, encSmp, mkSeg, toTm, toVal,
+            isTimeLike, segAt, encSeg]
+      | some q =>
+          have hlt : ((j : Int) + 1 < (s.length : Int)) := by
+            have : j + 1 < s.length := by
+              rcases Nat.lt_or_ge (j + 1) s.length with h' | h'
+              · exact h'
+              · rw [List.getElem?_eq_none h'] at hq; cases hq
+            omega
+          have hcond : evalE call env (.bin .lt (.loc "i") (.call1 "len" (.loc "input_list"))) = .ok (.bool true) := by
+            simp [evalE, gi, gin, rl, encSig, hc.len, evalBin, isCmp, cmpDV, cmpInt, hlt]
+          unfold bStmt
+          rw [exec_ite hcond rfl]
+          simp only [if_true]
+          apply exec_setLoc
+          simp [evalE, gi, gin, gbeg, gend, evalBin, isCmp, arith, encSig, evalIdx_list_nat', evalIdx_list_succ, hj, hq, encSmp,
+            mkSeg, toTm, toVal, isTimeLike, segAt, encSeg])
 
 theorem outerBody_spec {opW opK : BinOp} {ninit : E} {worse : α → α → Bool} {neutral : α}
     (hp : Par α opW opK ninit worse neutral) {call : Call α} (hc : CallOK call) (fuel : Nat) {env : Env α}
@@ -893,18 +919,18 @@ theorem fwdTimed_eq (worse : α → α → Bool) (neutral : α) (s : ASig α) (a
 
 theorem fwd_exec {opW opK : BinOp} {ninit : E} {worse : α → α → Bool} {neutral : α}
     (hp : Par α opW opK ninit worse neutral) {call : Call α} (hc : CallOK call) (fuel : Nat)
-    (s : ASig α) (a b : Rat) (hfuel : s.length + 1 ≤ fuel) :
+    (s : ASig α) (a b : Rat) (xb : DV α) (hxb : BegOK xb a) (hfuel : s.length + 1 ≤ fuel) :
     match fwdTimed worse neutral s a b with
     | .ok o => ∃ env', exec call fuel (fwdBody opW opK ninit)
-        [("sample", encSig s), ("begin", .tm (.fin a)), ("end", .tm (.fin b))] = .ok (env', some (encSig o))
+        [("sample", encSig s), ("begin", xb), ("end", .tm (.fin b))] = .ok (env', some (encSig o))
     | .error e => exec call fuel (fwdBody opW opK ninit)
-        [("sample", encSig s), ("begin", .tm (.fin a)), ("end", .tm (.fin b))] = .error e := by
+        [("sample", encSig s), ("begin", xb), ("end", .tm (.fin b))] = .error e := by
   obtain ⟨d, hd, -⟩ := hp.hN call
     (setLoc "prev" (.list []) (setLoc "ans" (.list []) (setLoc "input_list" (encSig s) (setLoc "out" (.list [])
-      [("sample", encSig s), ("begin", .tm (.fin a)), ("end", .tm (.fin b))]))))
+      [("sample", encSig s), ("begin", xb), ("end", .tm (.fin b))]))))
   obtain ⟨d', hd', -⟩ := hp.hN call
     (setLoc "residual_start" d (setLoc "prev" (.list []) (setLoc "ans" (.list []) (setLoc "input_list" (encSig s)
-      (setLoc "out" (.list []) [("sample", encSig s), ("begin", .tm (.fin a)), ("end", .tm (.fin b))])))))
+      (setLoc "out" (.list []) [("sample", encSig s), ("begin", xb), ("end", .tm (.fin b))])))))
   unfold fwdBody
   rw [exec_seq_ok (exec_setLoc (v := .list []) (by simp [evalE])),
     exec_seq_ok (exec_setLoc (v := encSig s) (by simp [evalE, getLoc, List.lookup])),
@@ -915,10 +941,10 @@ theorem fwd_exec {opW opK : BinOp} {ninit : E} {worse : α → α → Bool} {neu
     exec_seq_ok (exec_setLoc (v := .uinf false) (by simp [evalE]))]
   generalize henv : (setLoc "domain_end" (DV.uinf false : DV α) (setLoc "i" (.int 1) (setLoc "max" d'
     (setLoc "residual_start" d (setLoc "prev" (.list []) (setLoc "ans" (.list []) (setLoc "input_list" (encSig s)
-      (setLoc "out" (.list []) [("sample", encSig s), ("begin", .tm (.fin a)), ("end", .tm (.fin b))])))))))) = env
+      (setLoc "out" (.list []) [("sample", encSig s), ("begin", xb), ("end", .tm (.fin b))])))))))) = env
   have hI : Inv env s a b := by
     subst henv
-    constructor <;> simp [List.lookup]
+    constructor <;> simp [List.lookup, hxb]
   have hi : env.lookup "i" = some (.int (((0 : Nat) : Int) + 1)) := by subst henv; simp
   have hout : env.lookup "out" = some (.list (pyStk ([] : List (Seg α)))) := by subst henv; simp
   clear henv
@@ -967,10 +993,11 @@ def G (n : Nat) : Nat := n + 1
 
 theorem runFn_fwd {opW opK : BinOp} {ninit : E} {worse : α → α → Bool} {neutral : α}
     (hp : Par α opW opK ninit worse neutral) (fuel k : Nat) (f : Fn) (hparams : f.params = ["sample", "begin", "end"])
-    (hbody : f.body = fwdBody opW opK ninit) (s : ASig α) (a b : Rat) (hfuel : G s.length ≤ fuel) :
-    runFn (callAt Gen.Dense.fns fuel (k + 1)) fuel f [encSig s, .tm (.fin a), .tm (.fin b)]
+    (hbody : f.body = fwdBody opW opK ninit) (s : ASig α) (a b : Rat) (xb : DV α) (hxb : BegOK xb a)
+    (hfuel : G s.length ≤ fuel) :
+    runFn (callAt Gen.Dense.fns fuel (k + 1)) fuel f [encSig s, xb, .tm (.fin b)]
       = (fwdTimed worse neutral s a b).map encSig := by
-  have h := fwd_exec (opW := opW) (opK := opK) hp (callOK_callAt (α := α) fuel k) fuel s a b hfuel
+  have h := fwd_exec (opW := opW) (opK := opK) hp (callOK_callAt (α := α) fuel k) fuel s a b xb hxb hfuel
   unfold runFn
   rw [hparams, hbody]
   revert h
@@ -986,12 +1013,26 @@ theorem gen_once_timed (fuel k : Nat) (s : ASig α) (a b : Rat) (hfuel : Fwd.G s
     callAt Gen.Dense.fns fuel (k + 2) "once_timed_operation" [encSig s, .tm (.fin a), .tm (.fin b)]
       = (onceTimed s a b).map encSig := by
   rw [callAt_fn _ _ _ _ Gen.Dense.fn_once_timed_operation _ rfl]
-  exact runFn_fwd par_once fuel k _ rfl once_body_eq s a b hfuel
+  exact runFn_fwd par_once fuel k _ rfl once_body_eq s a b _ (BegOK.tm a) hfuel
 
 theorem gen_hist_timed (fuel k : Nat) (s : ASig α) (a b : Rat) (hfuel : Fwd.G s.length ≤ fuel) :
     callAt Gen.Dense.fns fuel (k + 2) "historically_timed_operation" [encSig s, .tm (.fin a), .tm (.fin b)]
       = (histTimed s a b).map encSig := by
   rw [callAt_fn _ _ _ _ Gen.Dense.fn_historically_timed_operation _ rfl]
-  exact runFn_fwd par_hist fuel k _ rfl hist_body_eq s a b hfuel
+  exact runFn_fwd par_hist fuel k _ rfl hist_body_eq s a b _ (BegOK.tm a) hfuel
+
+/-- the same with the integer literal `0` as `begin` (the call `historically_timed_operation(out2, 0, begin)` of
+    `since_timed_operation`) -/
+theorem gen_hist_timed_int0 (fuel k : Nat) (s : ASig α) (b : Rat) (hfuel : Fwd.G s.length ≤ fuel) :
+    callAt Gen.Dense.fns fuel (k + 2) "historically_timed_operation" [encSig s, .int 0, .tm (.fin b)]
+      = (histTimed s 0 b).map encSig := by
+  rw [callAt_fn _ _ _ _ Gen.Dense.fn_historically_timed_operation _ rfl]
+  exact runFn_fwd par_hist fuel k _ rfl hist_body_eq s 0 b _ BegOK.int0 hfuel
+
+theorem gen_once_timed_int0 (fuel k : Nat) (s : ASig α) (b : Rat) (hfuel : Fwd.G s.length ≤ fuel) :
+    callAt Gen.Dense.fns fuel (k + 2) "once_timed_operation" [encSig s, .int 0, .tm (.fin b)]
+      = (onceTimed s 0 b).map encSig := by
+  rw [callAt_fn _ _ _ _ Gen.Dense.fn_once_timed_operation _ rfl]
+  exact runFn_fwd par_once fuel k _ rfl once_body_eq s 0 b _ BegOK.int0 hfuel
 
 end Rtamt.Py.Dn
